@@ -2,6 +2,7 @@ package checks
 
 import (
 	"bytes"
+	"encoding/hex"
 	"encoding/json"
 	"fmt"
 	"strings"
@@ -187,16 +188,31 @@ func c01One(c c01Case, r *rep.R) (string, string) {
 	var chs *ipmi.GetChassisStatusRsp
 	var devErr, chsErr, closeErr, lunErr error
 	p := guard(func() {
-		sess, err = w.Conn.NewV2Session(w.Ctx, opts)
+		if c.Discover == 1 && !c.KG && c.Lookup == false && c.DiscPad%2 == 1 {
+			// the version-agnostic entry point: no KG, default suites, name-only lookup
+			var s bmc.Session
+			s, err = w.Conn.NewSession(w.Ctx, &opts.SessionOpts)
+			if err == nil {
+				sess = s.(*bmc.V2Session)
+			}
+		} else {
+			sess, err = w.Conn.NewV2Session(w.Ctx, opts)
+		}
 		if err != nil {
 			return
 		}
 		dev, devErr = sess.GetDeviceID(w.Ctx)
+		// describing the session (it derives K1/K2 again for the summary) between
+		// two commands must leave it as it was
+		if d := sess.String(); !strings.Contains(d, hex.EncodeToString(sess.SIK)) || sess.Version() != "2.0" || sess.ID() != sess.LocalID {
+			lunErr = fmt.Errorf("session summary %q / version %q / ID %#x do not describe the session (local ID %#x)", d, sess.Version(), sess.ID(), sess.LocalID)
+		}
 		chs, chsErr = sess.GetChassisStatus(w.Ctx)
 		// a command addressed to another logical unit of the BMC
 		lun := ipmi.LUN(1 + (c.ULen+c.PLen+c.Priv)%3)
 		rd := &ipmi.GetSensorReadingCmd{Req: ipmi.GetSensorReadingReq{Number: 2}, OwnerLUN: lun}
-		if err := bmc.ValidateResponse(sess.SendCommand(w.Ctx, rd)); err != nil {
+		if lunErr != nil {
+		} else if err := bmc.ValidateResponse(sess.SendCommand(w.Ctx, rd)); err != nil {
 			lunErr = fmt.Errorf("Get Sensor Reading to LUN %d: %v", lun, err)
 		} else if rd.Rsp.Reading != cfg.Sensors[2][0] {
 			lunErr = fmt.Errorf("Get Sensor Reading to LUN %d returned %#02x, the BMC sent %#02x", lun, rd.Rsp.Reading, cfg.Sensors[2][0])
